@@ -171,6 +171,9 @@ def lean_stage(prop, tier):
         for _, n in names:
             f.write("#print axioms %s\n" % n)
     rc, out, _ = run(["lake", "env", "lean", apath], cwd=LEAN, timeout=600)
+    if rc != 0:  # e.g. an olean being rewritten by a concurrent build: build once more and retry
+        run(["lake", "build"] + targets, cwd=LEAN, timeout=1800)
+        rc, out, _ = run(["lake", "env", "lean", apath], cwd=LEAN, timeout=600)
     if rc != 0:
         res["ok"] = False
         res["broken"].append("axiom audit failed: " + out[-500:])
